@@ -42,7 +42,11 @@ pub fn plan(prop: &str, _tier: Tier) -> Vec<(String, u64)> {
             Tier::Quick => vec![v("release", 8), v("dbg", 8), v("asan", 8), v("miri", 8)],
             Tier::Thorough => vec![v("release", 16), v("dbg", 16), v("asan", 16), v("miri", 16), v("valgrind", 8)],
         },
-        "C13" | "C14" | "C15" => vec![v("release", 12), v("dbg", 4)],
+        "C13" => match _tier {
+            Tier::Quick => vec![v("release", 12), v("dbg", 4), v("miri", 4)],
+            Tier::Thorough => vec![v("release", 12), v("dbg", 4), v("miri", 16)],
+        },
+        "C14" | "C15" => vec![v("release", 12), v("dbg", 4)],
         "C16" => vec![v("release", 14), v("dbg", 2)],
         "C17" => match _tier {
             Tier::Quick => vec![v("release", 8), v("dbg", 4), v("asan", 8), v("miri", 8)],
